@@ -6,6 +6,14 @@ Each part lives in its own module tools/tr_<part>.py exposing
 and raises an exception when a construct it expects cannot be parsed (a broken tie, never a
 silently smaller table). Files are rewritten only when their content changed so that `lake build`
 stays incremental. The last stdout line is a JSON object with what was seen (counts per table).
+
+A part that raises does not stop the others (audit 5: one unparseable construct in the colour
+macros used to break the checks of all twenty properties): its generated files are left as they
+are (the last good tables), the reason is reported under `"failed": {part: reason}` together
+with the files the part wrote when it last succeeded (`"failed_files"`, remembered in
+lean/EG/Generated/parts.json), and the exit status stays 0. tools/check.py turns a failed part
+into a broken tie for exactly those properties whose theorems import one of these files (or
+whose harness uses a generated Rust table of that part).
 """
 import importlib, json, os, sys
 V = os.path.dirname(os.path.dirname(os.path.abspath(__file__)))
@@ -17,16 +25,36 @@ def main():
     os.makedirs(GEN, exist_ok=True)
     info = {}
     parts = sorted(f[:-3] for f in os.listdir(os.path.join(V, "tools")) if f.startswith("tr_") and f.endswith(".py"))
+    side = os.path.join(GEN, "parts.json")
+    try:
+        part_files = json.load(open(side))
+    except Exception:
+        part_files = {}
+    before = json.dumps(part_files, sort_keys=True)
+    failed, failed_files = {}, {}
     for part in parts:
-        mod = importlib.import_module(part)
-        files, i = mod.generate(REPO)
+        try:
+            mod = importlib.import_module(part)
+            files, i = mod.generate(REPO)
+        except Exception as e:
+            failed[part] = f"{type(e).__name__}: {e}"
+            # files of the last successful run; unknown (never succeeded here) = None = "assume everything"
+            failed_files[part] = part_files.get(part)
+            continue
         info[part] = i
+        part_files[part] = sorted(files)
         for name, src in files.items():
             path = os.path.join(GEN, name)
             old = open(path).read() if os.path.exists(path) else None
             if old != src:
                 with open(path, "w") as f:
                     f.write(src)
+    if json.dumps(part_files, sort_keys=True) != before:
+        with open(side, "w") as f:
+            json.dump(part_files, f, indent=1, sort_keys=True)
+    if failed:
+        info["failed"] = failed
+        info["failed_files"] = failed_files
     print(json.dumps(info))
 
 if __name__ == "__main__":
